@@ -47,10 +47,15 @@ def gen(rng, tier, quarantine=()):
     if "no-inplace" not in quarantine and rng.random() < 0.3:
         # tooled.inplace swaps the code of the function too (and keeps a helper copy)
         q = rng.choice([u for u in universe if "." not in u and u != "mk"] or ["top"])
+        how = rng.choice(["inplace", "inplace", "decorate"])
+        if how == "decorate" and rng.random() < 0.6:
+            # ... '@tooled' above a method (a plain def in a class body; the engine falls back to
+            # in-place tooling for anything else)
+            q = rng.choice([u for u in universe if "." in u] or [q])
         if q not in universe:
             universe.append(q)
         # ... and '@tooled' binds the name to a tooled copy
-        ops.append({"op": "tool", "fn": q, "how": rng.choice(["inplace", "inplace", "decorate"])})
+        ops.append({"op": "tool", "fn": q, "how": how})
     nprobes = rng.randint(3, 5) if nested_pair else rng.randint(1, 4)
     for i in range(nprobes):
         q = rng.choice(universe[:2] * 2 + universe[2:]) if nested_pair else rng.choice(universe)
